@@ -87,7 +87,7 @@ def strat(tier, opts):
 
 def tar_strat(tier, opts):
     import c04
-    return c04.cases(tier)
+    return c04.cases(tier).filter(lambda c: not c.get("gen"))
 
 
 def check_tar_case(case, opts):
